@@ -44,7 +44,8 @@ Inductive tok :=
 | Lit (s : bytes)
 | U64 (f : string) | Str (f : string) | IntDec (f : string) | Bool (f : string)
 | StrList (f : string) | IntList (f : string) | Members (f : string)
-| HexStr (f : string).   (* %x of a string: two lowercase hex digits per byte *)
+| HexStr (f : string)    (* %x of a string: two lowercase hex digits per byte *)
+| HexStrList (f : string). (* %x of a []string: "[6162 63]", each element in hex *)
 
 Record spec := {
   s_name : string;
@@ -134,6 +135,7 @@ Definition render_tok (c : claim) (t : tok) : bytes :=
   | IntList f => match get f c with VIntList l => r_list (map r_oint l) | _ => [] end
   | Members f => match get f c with VMembers l => r_list (map r_member l) | _ => [] end
   | HexStr f => match get f c with VStr s => r_hex s | _ => [] end
+  | HexStrList f => match get f c with VStrList l => r_list (map r_hex l) | _ => [] end
   end.
 
 Fixpoint render (fm : list tok) (c : claim) : bytes :=
@@ -176,7 +178,7 @@ Definition val_ok (ty : fty) (v : fval) : bool :=
   | TInt INonNeg, VInt (Some z) => 0 <=? z
   | TInt IAny, VInt _ => true
   | TBool, VBool _ => true
-  | TStrList cl, VStrList l => forallb (str_ok cl) l
+  | TStrList cl, VStrList l => forallb (fun x => forallb is_byte x && str_ok cl x) l
   | TIntList, VIntList _ => true
   | TMembers cl, VMembers l => forallb (fun m => (0 <=? fst m) && str_ok cl (snd m)) l
   | _, _ => false
@@ -221,6 +223,7 @@ Definition talpha (sp : spec) (t : tok) : Z -> bool :=
                  | Some (TMembers cl) => fun b => is_digit b || calpha cl b || is_membch b
                  | _ => fun _ => true end
   | HexStr _ => is_hex
+  | HexStrList _ => fun b => is_hex b || is_listch b
   end.
 
 (* the token is applied to a field of the matching type, and list renderings are unambiguous *)
@@ -239,6 +242,7 @@ Definition tok_ok (sp : spec) (t : tok) : bool :=
                  | Some (TMembers cl) => negb (calpha cl 125)
                  | _ => false end
   | HexStr f => match fty_of sp f with Some (TStr _) => true | _ => false end
+  | HexStrList f => match fty_of sp f with Some (TStrList cl) => cls_nonempty cl | _ => false end
   end.
 
 (* the token is the last one, or is followed by a literal whose first byte cannot occur in it *)
@@ -272,7 +276,7 @@ Fixpoint chk (sp : spec) (fm : list tok) : bool :=
 Definition tok_field (t : tok) : option string :=
   match t with
   | Lit _ => None
-  | U64 f | Str f | IntDec f | Bool f | StrList f | IntList f | Members f | HexStr f => Some f
+  | U64 f | Str f | IntDec f | Bool f | StrList f | IntList f | Members f | HexStr f | HexStrList f => Some f
   end.
 
 Fixpoint fmt_fields (fm : list tok) : list string :=
@@ -289,6 +293,73 @@ Definition check_fmt (sp : spec) : bool := chk sp (s_fmt sp) && covers sp.
 (* every field a handler reads is execution-relevant or is the chain name *)
 Definition reads_covered (sp : spec) : bool :=
   forallb (fun f => mem f (relevant_fields sp) || String.eqb f "ChainName") (s_read sp).
+
+(* ---------- different claim types never share a pre-image ---------- *)
+(* The attestation key is (nonce, hash) whatever the claim type.  Criterion for two formats: every literal is a
+   single '/', no field rendering can contain '/', so the pre-image splits uniquely into '/'-separated groups of
+   tokens; the two formats have a different number of groups, or at some position one format's group can only
+   contain bytes of an alphabet A while the other's group always starts with a byte outside A. *)
+
+Fixpoint split47 (l : bytes) : list bytes :=
+  match l with
+  | [] => [[]]
+  | b :: r => if b =? 47 then [] :: split47 r
+              else match split47 r with s :: ss => (b :: s) :: ss | [] => [[b]] end
+  end.
+
+Definition is_slash (t : tok) : bool :=
+  match t with Lit [b] => b =? 47 | _ => false end.
+
+Fixpoint groups (fm : list tok) : list (list tok) :=
+  match fm with
+  | [] => [[]]
+  | t :: r => if is_slash t then [] :: groups r
+              else match groups r with g :: gs => (t :: g) :: gs | [] => [[t]] end
+  end.
+
+(* every token is a '/' literal or a well-typed field token that cannot print '/' *)
+Definition slash_ok (sp : spec) : bool :=
+  forallb (fun t => is_slash t || (tok_ok sp t && negb (talpha sp t 47))) (s_fmt sp).
+
+Definition digits10 : list Z := [48; 49; 50; 51; 52; 53; 54; 55; 56; 57].
+
+(* the possible first bytes of a token whose rendering is never empty ([] = no guarantee) *)
+Definition tfirst (sp : spec) (t : tok) : list Z :=
+  match t with
+  | U64 _ => digits10
+  | IntDec f => match fty_of sp f with
+                | Some (TInt INonNeg) => digits10
+                | _ => digits10 ++ [45; 60]
+                end
+  | Bool _ => [116; 102]
+  | StrList _ | IntList _ | Members _ | HexStrList _ => [91]
+  | _ => []
+  end.
+
+Definition galpha (sp : spec) (g : list tok) (b : Z) : bool := existsb (fun t => talpha sp t b) g.
+
+Definition grp_disj (spX : spec) (gX : list tok) (spY : spec) (gY : list tok) : bool :=
+  match gY with
+  | tY :: _ => match tfirst spY tY with
+               | [] => false
+               | F => forallb (fun b => negb (galpha spX gX b)) F
+               end
+  | [] => false
+  end.
+
+Fixpoint zip_disj (spA : spec) (gA : list (list tok)) (spB : spec) (gB : list (list tok)) : bool :=
+  match gA, gB with
+  | a :: ra, b :: rb => grp_disj spA a spB b || grp_disj spB b spA a || zip_disj spA ra spB rb
+  | _, _ => false
+  end.
+
+Definition xdisjoint (spA spB : spec) : bool :=
+  slash_ok spA && slash_ok spB &&
+  (negb (Nat.eqb (List.length (groups (s_fmt spA))) (List.length (groups (s_fmt spB))))
+   || zip_disj spA (groups (s_fmt spA)) spB (groups (s_fmt spB))).
+
+Definition all_xdisjoint (l : list spec) : bool :=
+  forallb (fun a => forallb (fun b => String.eqb (s_name a) (s_name b) || xdisjoint a b) l) l.
 
 (* ---------- the property for one claim type, and its negation ---------- *)
 
